@@ -86,6 +86,21 @@ Example at_relative_help_example :
      = Some (Some (1641081600 * NS), Some ((1641081600 + 86400) * NS)).
 Proof. vm_compute. repeat split; reflexivity. Qed.
 
+(* the other bound's FRACTION is kept: x + D with x's sub-second part, both directions;
+   '@+0s' against a fractional bound gives b = a and is accepted *)
+Example at_relative_keeps_fraction :
+  m_bounds (Some (cs "2020-01-02T03:04:05.678")) (Some (cs "@+1s")) 0 1700000000
+  = Some (Some 1577934245678000000, Some 1577934246678000000)
+  /\ m_bounds (Some (cs "2020-01-02T03:04:05.678")) (Some (cs "@+0s")) 0 1700000000
+     = Some (Some 1577934245678000000, Some 1577934245678000000)
+  /\ m_bounds (Some (cs "2020-01-02T03:04:05.999999")) (Some (cs "@+90s")) 0 1700000000
+     = Some (Some 1577934245999999000, Some 1577934335999999000)
+  /\ m_bounds (Some (cs "@-2s")) (Some (cs "2020-01-02 03:04:05.500 +05:30")) 0 1700000000
+     = Some (Some 1577914443500000000, Some 1577914445500000000)
+  /\ m_bounds (Some (cs "@-1h2m3s")) (Some (cs "20200102T030405.001")) (-12600) 1700000000
+     = m_bounds (Some (cs "20200102T020202.001")) (Some (cs "20200102T030405.001")) (-12600) 1700000000.
+Proof. vm_compute. repeat split; reflexivity. Qed.
+
 (* the same statement at the level of the specification, for every form and every sum *)
 Lemma spec_at_relative f items tz now x :
   is_at (Some f) = false -> denote f tz now None = Some x ->
